@@ -209,6 +209,18 @@ def search(ctx):
                 if np.abs(m_[0] - bm).max() > 1e-12 * scx or np.abs(s_[0] - bs).max() > 1e-7 * scx:
                     ctx.violation("C18:accumulator", "running mean/std differ from batch values", dict(kind="acc", pushes=K, **info))
                     break
+            # ... and at every stage of the history: queries (repeated) between pushes change nothing
+            acc = Accumulator()
+            order = [int(j) for j in rng.permutation(K)]
+            for q in range(K):
+                acc.push(np.array(xs[order[q]]))
+                pref = np.array([xs[order[t]] for t in range(q + 1)])
+                for rep in range(2):
+                    m_, s_ = np.asarray(acc.mean()), np.asarray(acc.std())
+                    if not (np.abs(m_ - pref.mean(0)).max() <= 1e-12 * scx) or not (np.abs(s_ - pref.std(0)).max() <= 1e-7 * scx):
+                        ctx.violation("C18:accumulator-history", "after %d pushes (query %d) the running mean/std differ from the batch values of what was pushed" % (q + 1, rep + 1),
+                                      dict(kind="acc-history", pushes=q + 1, query=rep + 1, **info))
+                        break
         except Exception as ex:
             ctx.violation("C18:raises:%s" % type(ex).__name__, "image-processing identity check raised %r" % (ex,), dict(kind="raises", **info))
     # ---- crops: bounded-exhaustive on small images
